@@ -18,7 +18,8 @@ CONSTANTS Procs,          \* abstract processors
           Kinds,          \* HW -> "R" | "L" | "F"
           RegionOf,       \* HW -> [Procs -> region]
           MaxOps,
-          SpawnSets       \* sets used by the spawn operations (subset of SUBSET Procs)
+          SpawnSets,      \* sets used by the spawn operations (subset of SUBSET Procs)
+          Faults          \* BOOLEAN: histories may contain refused pins and plain threads that pin themselves
 
 PinSets == (SUBSET Procs) \ {{}}
 
@@ -66,12 +67,28 @@ SpawnThread(h, t, S) ==
     /\ hist' = Append(hist, [op |-> "spawn_thread", t |-> t, h |-> h, s |-> S])
     /\ UNCHANGED <<os, last, cache>>
 
+\* The OS refuses the mask (sched_setaffinity fails): the platform call panics BEFORE update_pin_status, so neither the
+\* OS nor the library's bookkeeping changes. (Fault injection is possible on the harness kernel only.)
+PinRefused(h, t, S) ==
+    /\ hist' = Append(hist, [op |-> "pin_refused", t |-> t, h |-> h, s |-> S])
+    /\ kids' = {}
+    /\ UNCHANGED <<os, last, cache>>
+
+\* A plain std thread created by t (it inherits t's OS affinity; the library knows nothing about it) pins ITSELF to S
+\* through h: afterwards it looks exactly like a thread spawn_thread(S) created.
+PlainPin(h, t, S) ==
+    /\ kids' = { [h |-> h, os |-> S, last |-> PinnedTo(S), cache |-> CacheFor(h, S)] }
+    /\ hist' = Append(hist, [op |-> "plain_pin", t |-> t, h |-> h, s |-> S])
+    /\ UNCHANGED <<os, last, cache>>
+
 Next ==
     /\ Len(hist) < MaxOps
     /\ \E h \in HW, t \in Threads :
           \/ \E S \in PinSets : Pin(h, t, S)
           \/ \E S \in SpawnSets : SpawnThreads(h, t, S)
           \/ \E S \in SpawnSets : SpawnThread(h, t, S)
+          \/ \E S \in SpawnSets : Faults /\ PinRefused(h, t, S)
+          \/ \E S \in SpawnSets : Faults /\ PlainPin(h, t, S)
 
 Spec == Init /\ [][Next]_vars
 
